@@ -15,7 +15,7 @@ from props.zenc_common import Leaves
 
 LOCAL = (2021, 3, 4, 5, 6, 7)
 ZONES = ['UTC', 'New_York', 'Kolkata', 'GMT-5', 'St_Johns', 'Tokyo']
-RT_ZONES = ['America/St_Johns', 'Australia/Lord_Howe', 'America/New_York', 'Asia/Kathmandu', 'Europe/London', 'Pacific/Chatham']
+RT_ZONES = ['America/St_Johns', 'Atlantic/Reykjavik', 'Australia/Lord_Howe', 'America/New_York', 'Asia/Kathmandu', 'Europe/London', 'Pacific/Chatham']
 # real offset transitions (UTC seconds) of those zones, used ONLY to lift a solver verdict "some rule table breaks the round
 # trip" to a natively reproducible witness (the solver's own instant is generally not at a transition of the real table)
 def _ts(y, m, d, hh, mi): return ch.days_from_civil(y, m, d) * 86400 + hh * 3600 + mi * 60
@@ -26,6 +26,7 @@ TRANSITIONS = {
     'America/St_Johns': [_ts(2021, 3, 14, 5, 30), _ts(2021, 11, 7, 4, 30)],
     'Pacific/Chatham': [_ts(2021, 4, 3, 14, 0), _ts(2021, 9, 25, 14, 0)],
     'Asia/Kathmandu': [_ts(1985, 12, 31, 18, 30)],
+    'Atlantic/Reykjavik': [_ts(2021, 1, 15, 12, 0)],       # no transitions since 1968: any instant (offset zero all year)
 }
 IDS = ['UTC', 'Europe/London', 'America/New_York', 'America/Indiana/Knox', 'America/Argentina/Buenos_Aires', 'Etc/GMT+5', 'Asia/Kolkata', 'US/Eastern', 'GB']
 
@@ -38,7 +39,7 @@ def templates(ctx):
     for i in IDS: T.append({'name': 'short:' + i, 'mode': 'short', 'id': i})
     # round trips through both codecs in named zones whose rule table is an uninterpreted function of the instant
     import random
-    for z in RT_ZONES[:2 if ctx.quick() else len(RT_ZONES)]:
+    for z in RT_ZONES[:3 if ctx.quick() else len(RT_ZONES)]:
         # quick: 12 of the 105 quarter-hour offsets (seed-rotated, always with the extremes and zero); thorough: all
         ks = None
         if ctx.quick(): ks = sorted(set([0, 48, 104] + random.Random(ctx.seed * 7 + len(z)).sample(range(105), 9)))
